@@ -29,6 +29,7 @@ type vhCoordinator struct {
 	syncResp     syncGroupResponseV0
 	syncErr      error
 	parts        []Partition
+	filterTopics bool
 	joins        int
 	joinOutcome  func(call int) (joinGroupResponse, error) // overrides joinResp/joinErr when set
 	joinMembers  []string                                  // member id carried by each joinGroup request
@@ -84,7 +85,20 @@ func (c *vhCoordinator) offsetCommit(r offsetCommitRequestV2) (offsetCommitRespo
 	}
 	return offsetCommitResponseV2{}, nil
 }
-func (c *vhCoordinator) readPartitions(...string) ([]Partition, error) {
+func (c *vhCoordinator) readPartitions(topics ...string) ([]Partition, error) {
 	c.calls = append(c.calls, "readPartitions")
-	return c.parts, nil
+	if !c.filterTopics {
+		return c.parts, nil
+	}
+	// like a broker: only the partitions of the topics that were asked for
+	var out []Partition
+	for _, p := range c.parts {
+		for _, t := range topics {
+			if p.Topic == t {
+				out = append(out, p)
+				break
+			}
+		}
+	}
+	return out, nil
 }
